@@ -545,7 +545,7 @@ func fieldName(ptrT types.Type, i int) string {
 	if s == nil || i >= s.NumFields() {
 		return fmt.Sprintf("#%d", i)
 	}
-	return s.Field(i).Name()
+	return canonField(s.Field(i))
 }
 
 func fieldNameV(t types.Type, i int) string {
@@ -553,7 +553,7 @@ func fieldNameV(t types.Type, i int) string {
 	if s == nil || i >= s.NumFields() {
 		return fmt.Sprintf("#%d", i)
 	}
-	return s.Field(i).Name()
+	return canonField(s.Field(i))
 }
 
 // ---------------------------------------------------------------------------------
